@@ -177,8 +177,13 @@ Proof.
   intros Hx Hc tys outs Hi Hr. unfold infer_Compress in Hi. unfold rt_Compress in Hr.
   destruct rej; [discriminate|].
   destruct (negb (elem_eqb (fst vc) Bool_)); [discriminate|].
-  destruct inp as [[e s|c]|]; try discriminate. destruct cond as [[ce cs|c]|]; try discriminate.
-  simpl in Hx. destruct Hx as [He Hs]. destruct vi as [ev sv]. simpl in He, Hs, Hr. subst.
+  assert (Huntyped : tys = [None] -> Forall2 conforms_opt outs tys).
+  { intros ->. destruct axis as [a|]; [cbv zeta in Hr; match type of Hr with (if ?c then _ else _) = _ => destruct c end; [|discriminate]|];
+      inv_ok; one. }
+  destruct inp as [[e s|c]|]; [| |apply Huntyped; now inv_ok].
+  2:{ destruct cond as [[ce cs|c']|]; [discriminate|discriminate|apply Huntyped; now inv_ok]. }
+  destruct cond as [[ce cs|c]|]; [|discriminate|apply Huntyped; now inv_ok].
+  clear Huntyped. simpl in Hx. destruct Hx as [He Hs]. destruct vi as [ev sv]. simpl in He, Hs, Hr. subst.
   destruct s as [[|d sh]|].
   - inv_ok. destruct axis; [match type of Hr with (if ?c then _ else _) = _ => destruct c end|]; inv_ok; one.
   - destruct (negb (elem_eqb ce Bool_)); [discriminate|].
